@@ -268,6 +268,11 @@ _BASE = {
         ['named', 'CNOT', [0, 1]], ['named', 'CNOT', [1, 0]],
         ['gen', [1], 'Y', 2], ['gen', [0, 1], 'XZ', 2], ['rotctor', 'ZY', 0],
         ['fmap', [0, 1], 2, M2A], ['bmap', [0, 1], 2, M2B], ['bmap', [0], 1, M1A]],
+    ('py', 4): [
+        ['named', 'H', [3]], ['named', 'S', [1]],
+        ['named', 'CNOT', [0, 1]], ['named', 'CNOT', [3, 2]], ['named', 'CNOT', [0, 3]],
+        ['gen', [1, 2], 'YZ', 2], ['rotctor', 'XIIY', 0],
+        ['fmap', [0, 2], 2, M2A], ['bmap', [1, 3], 2, M2B], ['gen', [0, 1, 2, 3], 'XYZX', 0]],
     ('py', 1): [['named', 'H', [0]], ['named', 'S', [0]], ['gen', [0], 'Y', 2], ['bmap', [0], 1, M1A]],
     ('torch', 3): [
         ['gen', [2], 'X', 0], ['gen', [0, 1], 'XZ', 2], ['gen', [0, 1, 2], 'YXZ', 0], ['gen', [0, 2], 'XY', 0],
@@ -305,7 +310,7 @@ class Inp(object):
         self.idx = ref.elem_index(self.gs, self.ps, N).astype(I64)
 
 
-_SCRAMBLE = {3: (0, 8, 4, 12, 14, 1, 7, 11), 2: (0, 4, 3, 7, 9, 1), 1: (0, 1, 3)}
+_SCRAMBLE = {4: (0, 2, 4, 7, 8, 5, 9, 1), 3: (0, 8, 4, 12, 14, 1, 7, 11), 2: (0, 4, 3, 7, 9, 1), 1: (0, 1, 3)}
 
 
 @functools.lru_cache(maxsize=None)
@@ -573,7 +578,10 @@ def exercise(prop, pk, sigbase, label, factory, ins, fw, bw, vio, stats, seq=Non
                 '%s: %s raised %s: %s' % (label, step[0], type(e).__name__, str(e)[:200]))
             stats['raised'] = stats.get('raised', 0) + 1
             return n + 1
+        nv0 = vio.count()
         for ii, inp in enumerate(ins):
+            if vio.count() > nv0 + 1:
+                break           # two findings per configuration and round are enough
             try:
                 x = pk.fresh(inp)
                 if rd == 'fwd':
@@ -584,15 +592,15 @@ def exercise(prop, pk, sigbase, label, factory, ins, fw, bw, vio, stats, seq=Non
                     if seq is not None:
                         s = seq[ii]
                         if not same(o, s[0], s[1], s[2]):
-                            vio('%s/%s%s' % (sigbase[1], inp.kind, tail),
+                            vio('%s%s' % (sigbase[1], tail),
                                 '%s: forward on %s differs from applying the gates one at a time: %s' % (label, inp.name, first_diff(o, s[0], s[1], inp)))
                     elif not agrees_with_ref(o, inp, fw):
                         eg, ep = ref_image(inp, fw)
-                        vio('%s/%s/forward-vs-reference%s' % (sigbase[1], inp.kind, tail),
+                        vio('%s/forward-vs-reference%s' % (sigbase[1], tail),
                             '%s: forward on %s is not the reference automorphism: %s' % (label, inp.name, first_diff(o, eg, ep, inp)))
                     if locality is not None and not isinstance(o, str) and (o[0][:, locality] != inp.gs[:, locality]).any():
                         j = int(np.nonzero((o[0][:, locality] != inp.gs[:, locality]).any(1))[0][0])
-                        vio('%s/%s/locality' % (sigbase[1], inp.kind),
+                        vio('%s/locality' % sigbase[1],
                             '%s: forward changed a qubit outside the declared ones: %s -> %s (%s)' % (
                                 label, ref.g_to_str(inp.gs[j], inp.ps[j]), ref.g_to_str(o[0][j], o[1][j]), inp.name))
                 elif rd == 'fb':
@@ -603,7 +611,7 @@ def exercise(prop, pk, sigbase, label, factory, ins, fw, bw, vio, stats, seq=Non
                     o = observe(pk, x, inp)
                     n += 1
                     if not same(o, inp.gs, inp.ps, inp.r):
-                        vio('%s/%s/backward-after-forward%s' % (sigbase[1], inp.kind, tail),
+                        vio('%s/backward-after-forward%s' % (sigbase[1], tail),
                             '%s: backward(forward(x)) != x on %s: %s' % (label, inp.name, first_diff(o, inp.gs, inp.ps, inp)))
                 else:
                     step[0] = 'backward'
@@ -612,14 +620,14 @@ def exercise(prop, pk, sigbase, label, factory, ins, fw, bw, vio, stats, seq=Non
                     n += 1
                     if not agrees_with_ref(o, inp, bw):
                         eg, ep = ref_image(inp, bw)
-                        vio('%s/%s/backward-vs-reference%s' % (sigbase[1], inp.kind, tail),
+                        vio('%s/backward-vs-reference%s' % (sigbase[1], tail),
                             '%s: backward on %s (fresh object) is not the reference inverse automorphism: %s' % (label, inp.name, first_diff(o, eg, ep, inp)))
                     step[0] = 'forward'
                     obj.forward(x)
                     o = observe(pk, x, inp)
                     n += 1
                     if not same(o, inp.gs, inp.ps, inp.r):
-                        vio('%s/%s/forward-after-backward%s' % (sigbase[1], inp.kind, tail),
+                        vio('%s/forward-after-backward%s' % (sigbase[1], tail),
                             '%s: forward(backward(x)) != x on %s: %s' % (label, inp.name, first_diff(o, inp.gs, inp.ps, inp)))
             except Exception as e:
                 vio('%s.%s/raises-%s' % (sigbase[1], step[0], type(e).__name__),
@@ -746,13 +754,13 @@ def sequential(prop, pk, T, N, letters, ins, fw, vio):
                 vio('%s/gate.%s/declared-qubits' % (T, l.sigkind), 'gate %s declares qubits %s, expected %s' % (l.name, tuple(g.qubits), l.qubits))
             if (nxt[0][:, outside] != cur[0][:, outside]).any():
                 j = int(np.nonzero((nxt[0][:, outside] != cur[0][:, outside]).any(1))[0][0])
-                vio('%s/gate.%s/in-sequence/%s/locality' % (T, l.sigkind, inp.kind), 'gate %s on qubits %s changed a qubit outside: %s -> %s (%s)' % (
+                vio('%s/gate.%s/in-sequence/locality' % (T, l.sigkind), 'gate %s on qubits %s changed a qubit outside: %s -> %s (%s)' % (
                     l.name, l.qubits, ref.g_to_str(cur[0][j], cur[1][j]), ref.g_to_str(nxt[0][j], nxt[1][j]), inp.name))
             cur = nxt
         seq.append(cur)
         if not agrees_with_ref(cur, inp, fw):
             eg, ep = ref_image(inp, fw)
-            vio('%s/sequential/%s/vs-reference' % (T, inp.kind),
+            vio('%s/sequential/vs-reference' % T,
                 'gate-by-gate gate.forward on %s differs from the reference automorphism product: %s' % (inp.name, first_diff(cur, eg, ep, inp)))
     return seq, n
 
@@ -796,6 +804,7 @@ def run_programs(prop, tag, items):
 
         def vio(sig, msg, obs=None, exp=None):
             viol.append(V(sig, item, 'N=%d program %s: %s' % (N, names, msg), obs, exp))
+        vio.count = lambda: len(viol)
 
         seq = None
         if prop == 'C09':
@@ -848,6 +857,7 @@ def run_gates(prop, tag, items):
 
         def vio(sig, msg, obs=None, exp=None):
             viol.append(V(sig, item, 'N=%d gate %s: %s' % (N, L.name, msg), obs, exp))
+        vio.count = lambda: len(viol)
         try:
             g0 = L.mk(pk)
         except Exception as e:
@@ -873,6 +883,7 @@ def run_gates(prop, tag, items):
                     variants.append((v, cls))
             else:
                 variants.append((v, None))
+        nv_gate = vio.count()
         for v, cls in variants:
             def factory(step, v=v, cls=cls):
                 step[0] = 'gate-constructor'
@@ -889,8 +900,9 @@ def run_gates(prop, tag, items):
                     x = pk.fresh(ins[-1])
                     step[0] = 'gate.forward'
                     g.forward(x)
-                    step[0] = 'gate.backward'
-                    g.backward(x)
+                    if prop == 'C10':
+                        step[0] = 'gate.backward'
+                        g.backward(x)
                     step[0] = 'gate.copy'
                     return g.copy()
                 if v.startswith('layer'):
@@ -915,6 +927,8 @@ def run_gates(prop, tag, items):
             n += c
             if nontriv:
                 nt += c
+            if v == 'gate' and vio.count() > nv_gate:
+                break       # the bare gate already deviates; the wrapped variants would only repeat it
         extra['gates_' + L.kind] = extra.get('gates_' + L.kind, 0) + 1
         if not samples and L.kind in ('bmap', 'rotctor') and len(L.qubits) >= 2:
             tg, tp = table_of_perm(fw, N)
@@ -966,6 +980,7 @@ def run_layers(prop, tag, items):
 
         def vio(sig, msg, obs=None, exp=None):
             viol.append(V(sig, item, 'N=%d layer %s: %s' % (N, names, msg), obs, exp))
+        vio.count = lambda: len(viol)
         for v in LAYER_VARIANTS:
             def factory(step, v=v):
                 step[0] = 'gate-constructor'
@@ -1076,13 +1091,15 @@ def selfcheck():
             if l.kind in ('fmap', 'bmap'):
                 assert (p[p] != ident(N)).any() and set(l.small[1].tolist()) == {0, 2}, l.name
         out['letters_%s_N%d' % (tag, N)] = len(A)
-    for N in (1, 2, 3):
+    for N in (1, 2, 3, 4):
         tableaux_pool(N)
     out['perms_vs_dense_and_map_apply'] = True
     return out
 
 
 def warmup(tag, Ns=(2, 3)):
+    if tag == 'py':
+        Ns = (2, 3, 4)
     """Run every base letter through every code path once in the parent, so that forked workers
     inherit all numba specialisations."""
     for N in Ns:
